@@ -40,7 +40,7 @@ REQUIRED_COUNTERS = ['permissive_import_of_same_text_first', 'valid_documents_ac
 
 
 def plan(tier):
-    return dict(cases=160 if tier == 'quick' else 3000, shards=16, timeout=900 if tier == 'quick' else 3600)
+    return dict(cases=160 if tier == 'quick' else 2000, shards=16, timeout=900 if tier == 'quick' else 3600)
 
 
 class PlainCoder(build.Coder):
